@@ -34,7 +34,8 @@ Inductive result :=
 | EMissingID          (* errors.New("missing ID") *)
 | EType               (* "... value is of type %s, expected type %s" *)
 | EVeto               (* the BeforeChange callback's error *)
-| RPanic.             (* mockstore: "callback NewID returned empty string" *)
+| RPanic              (* mockstore: "callback NewID returned empty string" *)
+| EOther.             (* any other error (none is produced by the current code on these inputs) *)
 
 (* one OnChange invocation: id, value before (None = Go nil), value after *)
 Definition cbcall := (id * option val * option val)%type.
@@ -88,6 +89,47 @@ Definition bstep (pfx : bytes) (st : kvstate) (o : op) : kvstate * result * list
       | Some b => (st, RVal b, [])
       end
   | OExists i => (st, RBool (is_some (bget pfx st i)), [])
+  end.
+
+(* badgerstore as it was before the fix commit "Create returns store.ErrDuplicate and
+   rejects an empty ID; an empty ID reads as not found": kept for the refutation witnesses *)
+Definition bget_v0 (pfx : bytes) (st : kvstate) (i : id) : option val + unit :=
+  if is_nil (bkey pfx i) then inr tt (* badger.ErrEmptyKey passed through *) else inl (alookup (bkey pfx i) st).
+Definition bstep_v0 (pfx : bytes) (st : kvstate) (o : op) : kvstate * result * list cbcall :=
+  match o with
+  | OCreate i v e =>
+      if e_wrongtype e then (st, EType, [])
+      else match bget_v0 pfx st i with
+           | inr _ => (st, EOther, [])
+           | inl (Some _) => (st, EOther, [])             (* fmt.Errorf("cannot create because ...") *)
+           | inl None =>
+               if e_veto e then (st, EVeto, [])
+               else (aset (bkey pfx i) v st, ROk, [(i, None, Some v)])
+           end
+  | OUpdate i v e =>
+      if e_wrongtype e then (st, EType, [])
+      else match bget_v0 pfx st i with
+           | inr _ => (st, EOther, [])
+           | inl None => (st, ENotFound, [])
+           | inl (Some b) =>
+               if e_veto e then (st, EVeto, [])
+               else (aset (bkey pfx i) v st, ROk, [(i, Some b, Some v)])
+           end
+  | ODelete i e =>
+      match bget_v0 pfx st i with
+      | inr _ => (st, EOther, [])
+      | inl None => (st, ENotFound, [])
+      | inl (Some b) =>
+          if e_veto e then (st, EVeto, [])
+          else (adel (bkey pfx i) st, ROk, [(i, Some b, None)])
+      end
+  | OValue i =>
+      match bget_v0 pfx st i with
+      | inr _ => (st, EOther, [])
+      | inl None => (st, ENotFound, [])
+      | inl (Some b) => (st, RVal b, [])
+      end
+  | OExists i => (st, RBool (match bget_v0 pfx st i with inl (Some _) => true | _ => false end), [])
   end.
 
 (* ---- mockstore ---- (default behaviour: no OnCreate/OnUpdate/... overrides) *)
